@@ -1,7 +1,291 @@
-//! C01 — not implemented yet (stub).
-use crate::engine::Args;
+//! C01 — proxied HTTP bodies arrive complete, unmodified and in order (DESIGN §4 C01).
+//!
+//! Wire lab. Built so far: HTTP/1.1 client -> HTTP/1.1 backend (keep-alive sequences, Content-Length /
+//! chunked / close-delimited bodies, generated I/O scripts on all four socket ends).
 
-pub fn run(_args: &Args) -> i32 {
-    println!("INCONCLUSIVE: C01 has no check yet");
-    2
+use std::{
+    cell::RefCell,
+    collections::BTreeMap,
+    io::Write,
+    time::{Duration, Instant},
+};
+
+use proptest::prelude::*;
+use serde::{Deserialize, Serialize};
+
+use crate::{
+    engine::{self, Args, CaseReport, CheckResult, Evidence, Failure, Stats},
+    lab::{
+        self, LabConfig,
+        h1::{self, BodyFraming, End, Framing, H1Conn, Kind, ReadOutcome, content, first_mismatch},
+        httplab::{BackendAction, HttpLab},
+        script::{self, ReadScript, ScriptedReader, WriteScript},
+    },
+};
+
+#[derive(Clone, Debug, Serialize, Deserialize)]
+pub struct Req {
+    pub req_len: usize,
+    pub req_framing: BodyFraming,
+    pub resp_len: usize,
+    pub resp_framing: BodyFraming,
+}
+
+#[derive(Clone, Debug, Serialize, Deserialize)]
+pub struct Case {
+    pub seed: u64,
+    pub reqs: Vec<Req>,
+    pub client_write: WriteScript,
+    pub client_read: ReadScript,
+    pub backend_write: WriteScript,
+    pub backend_read: ReadScript,
+}
+
+const BOUNDARIES: &[usize] = &[16393, 16384, 32768, 65535, 65536, 9, 4096];
+
+pub fn size(max: usize) -> impl Strategy<Value = usize> {
+    prop_oneof![
+        2 => prop_oneof![Just(0usize), Just(1), Just(2)],
+        4 => (0usize..BOUNDARIES.len(), prop_oneof![Just(-9i64), Just(-2), Just(-1), Just(0), Just(1), Just(2), Just(9)]).prop_map(|(b, d)| (BOUNDARIES[b] as i64 + d).max(0) as usize),
+        3 => 3usize..4096,
+        2 => 4096usize..70_000,
+        1 => 70_000usize..max.max(70_001),
+    ]
+}
+
+fn chunk_sizes() -> impl Strategy<Value = Vec<usize>> {
+    prop::collection::vec(prop_oneof![Just(1usize), Just(2), 1usize..64, 64usize..5000, Just(16384), Just(16393), 5000usize..40000], 1..6)
+}
+
+fn framing(allow_close: bool) -> BoxedStrategy<BodyFraming> {
+    if allow_close {
+        prop_oneof![3 => Just(BodyFraming::ContentLength), 3 => chunk_sizes().prop_map(BodyFraming::Chunked), 1 => Just(BodyFraming::CloseDelimited)].boxed()
+    } else {
+        prop_oneof![1 => Just(BodyFraming::ContentLength), 1 => chunk_sizes().prop_map(BodyFraming::Chunked)].boxed()
+    }
+}
+
+pub fn strategy(max: usize) -> impl Strategy<Value = Case> {
+    (
+        any::<u64>(),
+        prop::collection::vec((size(max), framing(false), size(max), framing(true)), 1..5),
+        (script::write_script(250), script::read_script(350), script::write_script(250), script::read_script(350)),
+    )
+        .prop_map(|(seed, raw, (cw, cr, bw, br))| {
+            let n = raw.len();
+            let small_c = cr.rcvbuf.map(|v| v <= 2048).unwrap_or(false);
+            let small_b = br.rcvbuf.map(|v| v <= 2048).unwrap_or(false);
+            let reqs = raw
+                .into_iter()
+                .enumerate()
+                .map(|(i, (mut req_len, req_framing, mut resp_len, mut resp_framing))| {
+                    // a close-delimited response ends the connection: last request only
+                    if resp_framing == BodyFraming::CloseDelimited && i + 1 != n {
+                        resp_framing = BodyFraming::ContentLength;
+                    }
+                    if small_b {
+                        req_len = req_len.min(20_000);
+                    }
+                    if small_c {
+                        resp_len = resp_len.min(20_000);
+                    }
+                    Req { req_len, req_framing, resp_len, resp_framing }
+                })
+                .collect();
+            Case { seed, reqs, client_write: cw, client_read: cr, backend_write: bw, backend_read: br }
+        })
+}
+
+fn near_boundary(n: usize) -> bool {
+    BOUNDARIES.iter().any(|b| (n as i64 - *b as i64).abs() <= 9)
+}
+
+pub fn scenario(lab: &mut HttpLab, case: &Case) -> CheckResult {
+    let mut rep = CaseReport::default();
+    if !lab.worker.alive() {
+        return Err(Failure::new("C01/worker-died", format!("the worker thread is gone: {:?}", lab.worker.join())));
+    }
+    let mut actions = BTreeMap::new();
+    for (i, r) in case.reqs.iter().enumerate() {
+        actions.insert(
+            i,
+            BackendAction::Respond {
+                status: 200,
+                headers: vec![("x-lab-resp".into(), i.to_string())],
+                body_seed: case.seed ^ (0xA000 + i as u64),
+                body_len: r.resp_len,
+                framing: r.resp_framing.clone(),
+                write: case.backend_write.clone(),
+                close_after: false,
+                cut_at: None,
+                reset: false,
+            },
+        );
+    }
+    lab.reset_plan(actions, case.backend_read.clone());
+    let stream = match lab.client() {
+        Ok(s) => s,
+        Err(e) => return Err(Failure::new("C01/connect-refused", format!("connect to the HTTP listener failed: {e}"))),
+    };
+    script::set_bufs(&stream, case.client_write.sndbuf, case.client_read.rcvbuf);
+    let mut w = stream.try_clone().expect("clone");
+    let mut conn = H1Conn::new(ScriptedReader::new(stream, &case.client_read));
+
+    for (i, r) in case.reqs.iter().enumerate() {
+        let req_body = content(case.seed ^ (0xB000 + i as u64), r.req_len);
+        let (extra, wire) = h1::encode_body(&req_body, &r.req_framing, &[]);
+        let mut headers = vec![("Host".to_string(), "c0.lab".to_string()), ("x-lab-req".to_string(), i.to_string())];
+        headers.extend(extra);
+        let mut bytes = h1::build_head(&format!("POST /r{i} HTTP/1.1"), &headers);
+        bytes.extend_from_slice(&wire);
+        // write in a thread so that a response can be read while a large request is still going out
+        let mut w2 = w.try_clone().expect("clone");
+        let cw = case.client_write.clone();
+        let writer = std::thread::spawn(move || script::write_scripted(&mut w2, &bytes, &cw).is_ok());
+        let budget = Duration::from_secs(12 + ((r.req_len + r.resp_len) / 100_000) as u64);
+        let out = conn.next_message(Kind::Response { head_request: false }, Instant::now() + budget);
+        let wrote = writer.join().unwrap_or(false);
+        let resp = match out {
+            ReadOutcome::Message(m) => m,
+            other => {
+                fail!(
+                    "C01/no-response",
+                    "request {i} ({} body bytes, {:?}; wrote all: {wrote}): no response: {}",
+                    r.req_len,
+                    r.req_framing,
+                    h1::describe(&other)
+                );
+            }
+        };
+        if resp.status() != Some(200) {
+            fail!("C01/unexpected-status", "request {i}: status {:?} ({}), expected the backend's 200; request {} bytes {:?}", resp.status(), resp.start_line, r.req_len, r.req_framing);
+        }
+        let want = content(case.seed ^ (0xA000 + i as u64), r.resp_len);
+        if let Some(off) = first_mismatch(&resp.body, &want) {
+            fail!(
+                format!("C01/response-body:{}", match r.resp_framing { BodyFraming::ContentLength => "cl", BodyFraming::Chunked(_) => "chunked", BodyFraming::CloseDelimited => "close" }),
+                "request {i}: backend sent a {}-byte body ({:?}), client received {} bytes (framing {:?}, end {:?}); first difference at offset {off}; response head {:?}; client bytes from there: {:?}",
+                want.len(),
+                r.resp_framing,
+                resp.body.len(),
+                resp.framing,
+                resp.end,
+                resp.headers,
+                engine::truncate(&String::from_utf8_lossy(&resp.body[off.min(resp.body.len())..]), 400)
+            );
+        }
+        if resp.end != End::Clean {
+            fail!("C01/response-not-ended-cleanly", "request {i}: the backend ended its {:?} response cleanly but the client saw {:?}", r.resp_framing, resp.end);
+        }
+        if resp.header("x-lab-resp") != Some(i.to_string().as_str()) {
+            fail!("C01/response-of-another-request", "request {i} was answered with the response of request {:?}", resp.header("x-lab-resp"));
+        }
+        let _ = &resp.framing == &Framing::None;
+    }
+    drop(conn);
+    let _ = w.flush();
+    drop(w);
+    // what the backend saw
+    std::thread::sleep(Duration::from_millis(20));
+    let recorded = lab.recorded();
+    for (i, r) in case.reqs.iter().enumerate() {
+        let mine: Vec<_> = recorded.iter().filter(|x| x.lab_req == Some(i)).collect();
+        if mine.len() != 1 {
+            fail!("C01/request-count-at-backend", "request {i} reached the backend {} times", mine.len());
+        }
+        let Some(m) = &mine[0].msg else {
+            fail!("C01/request-unreadable-at-backend", "request {i} as forwarded is not a well-formed HTTP/1.1 request: {:?}", mine[0].invalid);
+        };
+        let want = content(case.seed ^ (0xB000 + i as u64), r.req_len);
+        if let Some(off) = first_mismatch(&m.body, &want) {
+            fail!(
+                format!("C01/request-body:{}", match r.req_framing { BodyFraming::Chunked(_) => "chunked", _ => "cl" }),
+                "request {i}: client sent a {}-byte body ({:?}), backend received {} bytes (framing {:?}, end {:?}); first difference at offset {off}",
+                want.len(),
+                r.req_framing,
+                m.body.len(),
+                m.framing,
+                m.end
+            );
+        }
+        if m.end != End::Clean {
+            fail!("C01/request-not-ended-cleanly", "request {i}: forwarded request ended {:?}", m.end);
+        }
+        if m.method() != Some("POST") || m.target() != Some(format!("/r{i}").as_str()) {
+            fail!("C01/request-line-changed", "request {i}: forwarded as {:?}", m.start_line);
+        }
+    }
+    if recorded.iter().any(|x| x.invalid.is_some()) {
+        fail!("C01/garbage-at-backend", "the backend received bytes that are not a request: {:?}", recorded.iter().filter_map(|x| x.invalid.clone()).collect::<Vec<_>>());
+    }
+
+    let stall = case.client_read.has_stall() || case.backend_read.has_stall();
+    let any_body = case.reqs.iter().any(|r| r.req_len > 0 || r.resp_len > 0);
+    let boundary = case.reqs.iter().any(|r| near_boundary(r.req_len) || near_boundary(r.resp_len));
+    let split = !case.client_write.steps.is_empty() || !case.backend_write.steps.is_empty();
+    rep.nontrivial = any_body && (boundary || stall || split);
+    rep.class("h1->h1");
+    rep.class_if(boundary, "size_within_9_of_a_boundary");
+    rep.class_if(stall, "read_stall");
+    rep.class_if(split, "scripted_writes");
+    rep.class_if(case.reqs.len() >= 2, "keep_alive_2+");
+    rep.class_if(case.reqs.iter().any(|r| matches!(r.req_framing, BodyFraming::Chunked(_))), "chunked_request");
+    rep.class_if(case.reqs.iter().any(|r| matches!(r.resp_framing, BodyFraming::Chunked(_))), "chunked_response");
+    rep.class_if(case.reqs.iter().any(|r| r.resp_framing == BodyFraming::CloseDelimited), "close_delimited_response");
+    rep.class_if(case.reqs.iter().any(|r| r.req_len.max(r.resp_len) >= 65536), "64KiB+_body");
+    rep.inner_evaluations = case.reqs.len() as u64;
+    Ok(rep)
+}
+
+const SUB: &str = "h1h1";
+
+fn child(args: &Args, total: u64) -> Stats {
+    lab::init_ports(args.shard.map(|s| s.0).unwrap_or(0));
+    let labcell: RefCell<Option<HttpLab>> = RefCell::new(None);
+    let flaky = std::cell::Cell::new(0u64);
+    let max = args.tier.pick(256 * 1024, 6 * 1024 * 1024);
+    let run_on = |fresh: bool, case: &Case| -> CheckResult {
+        let mut lab = match (fresh, labcell.borrow_mut().take()) {
+            (false, Some(l)) => l,
+            (_, old) => {
+                drop(old);
+                HttpLab::new("c01", LabConfig::default(), 1)
+            }
+        };
+        let r = scenario(&mut lab, case);
+        *labcell.borrow_mut() = if r.is_ok() { Some(lab) } else { None };
+        r
+    };
+    let check = |case: &Case| -> CheckResult {
+        let first = run_on(false, case);
+        let Err(f) = first else { return first };
+        for _ in 0..2 {
+            if let Err(f2) = run_on(true, case) {
+                return Err(if f2.signature == f.signature { f2 } else { f });
+            }
+        }
+        flaky.set(flaky.get() + 1);
+        let mut rep = CaseReport::default();
+        rep.class("flaky_unconfirmed");
+        Ok(rep)
+    };
+    let mut st = engine::run_lab_shard(args, "C01", SUB, total, strategy(max), check, 40);
+    st.flaky_unconfirmed += flaky.get();
+    st
+}
+
+pub fn run(args: &Args) -> i32 {
+    if args.shard.is_some() {
+        let st = child(args, args.cases(1_000, 20_000));
+        return engine::shard::child_finish(args, &st);
+    }
+    let mut ev = Evidence::new(args, "exploration");
+    ev.rule(
+        SUB,
+        "one client connection through a live worker's HTTP listener to an HTTP/1.1 mock backend: 1..4 keep-alive POST requests, request and response bodies of boundary-biased sizes (0,1,2; within 9 of 16393 / 16384 / 32768 / 65535 / 65536 / 4096 / 9; up to 256 KiB, thorough 6 MiB) of keyed content, framed with Content-Length, chunked (generated chunk sizes) or - last response - close-delimited; four generated I/O scripts (dribbles, splits, pauses, read stalls, small socket buffers). Oracle: every body byte-identical on the other side, every message ends cleanly, each request reaches the backend exactly once with its method and target. A failure is re-run on a fresh worker and only reported when it reproduces. Non-trivial: a non-empty body and (a size within 9 of a boundary, or a read stall, or scripted writes).",
+    );
+    ev.assume("only the HTTP/1.1 -> HTTP/1.1 pair is built so far: HTTP/2 frontends (TLS) and h2c backends, concurrent streams and trailers are not exercised yet");
+    ev.assume("kernel segmentation and epoll wake-up order are influenced (write sizes, NODELAY, pauses, buffer sizes), not dictated");
+    engine::shard::run_sharded(&mut ev, args, SUB, 16, Duration::from_secs(args.tier.pick(900, 5400)));
+    ev.finish()
 }
